@@ -79,7 +79,7 @@ EvPick ==
 EvBegin ==
   /\ E.ev = "Begin"
   /\ LET t == E.task
-         ok == cur = t /\ (T(t).effort > 0 => (E.cursor = ts[t].cur /\ E.offset = ts[t].off))
+         ok == cur = t /\ ((T(t).effort > 0 /\ Len(T(t).alloc) > 0 /\ ~BoundOutside(t)) => (E.cursor = ts[t].cur /\ E.offset = ts[t].off))
      IN /\ ts' = [ts EXCEPT ![t].began = TRUE]
         /\ conf' = (conf /\ ok)
         /\ div' = Note(ok, <<"Begin", t, "expCursor", ts[t].cur, "got", E.cursor, "expOff", ts[t].off, "got", E.offset,
@@ -203,8 +203,8 @@ EvDone ==
          b == ts[t].dl
          expEndB == (ts[t].fslot + 1) * G
          ok == IF E.crashed THEN FALSE
-               ELSE IF isMs THEN E.ok /\ E.start = b /\ E.end = b
-               ELSE IF ~E.ok THEN NoneBookable(t)
+               ELSE IF isMs THEN (IF BoundOutside(t) THEN ~E.ok ELSE E.ok /\ E.start = b /\ E.end = b)
+               ELSE IF ~E.ok THEN BoundOutside(t) \/ NoneBookable(t)
                ELSE IF Fwd(t) THEN E.start = ts[t].start /\ E.end = ts[t].end
                ELSE E.start = ts[t].start /\ E.end = expEndB
          worked == ts[t].lo >= 0
